@@ -9,15 +9,15 @@ def placesArg : List String → Option (Option Val)
   | _ => none
 
 def handle : List String → String
-  | "b2d" :: b :: v :: [] =>
+  | "c18" :: "b2d" :: b :: v :: [] =>
     match b.toNat?, Val.dec? v with
     | some b, some v => (base2dec v b).enc
     | _, _ => "!bad-arg"
-  | "d2b" :: b :: v :: ps =>
+  | "c18" :: "d2b" :: b :: v :: ps =>
     match b.toNat?, Val.dec? v, placesArg ps with
     | some b, some v, some p => (dec2base v p b).enc
     | _, _, _ => "!bad-arg"
-  | "b2b" :: bi :: bo :: v :: ps =>
+  | "c18" :: "b2b" :: bi :: bo :: v :: ps =>
     match bi.toNat?, bo.toNat?, Val.dec? v, placesArg ps with
     | some bi, some bo, some v, some p => (base2base v p bi bo).enc
     | _, _, _, _ => "!bad-arg"
